@@ -603,6 +603,15 @@ Definition write_rpu_data (p : profile) (sw : src_switches) (x : rpu) : outcome 
         then match rdm x with Some d => write_dm p d w | None => Ok w end else Ok w
       else Ok w in
     let w := if align_before_remaining then byte_align w else w in
+    (* data before the CRC that the parser would take for a CM v4.0 payload cannot be written *)
+    let* _ := match remaining x, rdm x with
+              | Some bs, Some d =>
+                  if g_remaining_guard
+                  then ensure (is_some (cmv40 d) ||
+                               (N.of_nat (List.length bs) + crc32_terminator_bits <? dm_data_payload2_min_bits))
+                  else Ok tt
+              | _, _ => Ok tt
+              end in
     let w := match remaining x with Some bs => wput w bs | None => w end in
     let w := byte_align w in
     let bytes := wbytes w in
